@@ -7,6 +7,15 @@ ROOT = os.path.dirname(os.path.dirname(os.path.abspath(__file__)))
 ALL = [f"C{i:02d}" for i in range(1, 21)]
 
 CLAIMED = {
+    "C18": dict(
+        text="Bounded symbolic execution (CrossHair/z3): at the backend API the real PathIO and AsyncPathIO over ModelPath objects (POSIX reference model with pathlib's surface, validated exhaustively against the real "
+             "filesystem each run) give the same outcome and tree for every operation from every tree of a 51-tree universe; behind the real dispatcher MemoryPathIO, PathIO and AsyncPathIO give the same reply codes, "
+             "transferred bytes / listing entries and resulting tree for every client-visible operation, and a failing command changes nothing.",
+        note="Trusted: CrossHair/z3; ModelFS as the filesystem (validated one step deep against the real one, natively, every run); stubbed executor. NOT APPLICABLE part: the real filesystem on sequences longer than one step "
+             "and real thread interleavings of AsyncPathIO (kernel / threads cannot be encoded).",
+        technique="bounded symbolic execution of the real Python code (CrossHair 0.0.110 + z3): differential harness over backends against a validated reference model",
+        design_ref="DESIGN.md section 3 C18",
+    ),
     "C09": dict(
         text="Bounded symbolic execution (CrossHair/z3) of the real Client.upload / download / list(recursive) / remove and all the client methods below them on top of a model FTP peer replacing only "
              "Client.command and Client.get_stream; tree shape, destination, write_into and working directory symbolic: remote/local tree afterwards equals the documented image exactly, recursive listing "
